@@ -138,6 +138,16 @@ def run_replay(path):
     return r.returncode == 0, (r.stdout + r.stderr).strip()
 
 
+def _budget(item, tier):
+    """Per-item time budget.  Thorough items are capped (default 420 s each, VERIF_THOROUGH_CAP_S to change) so that a
+    whole thorough check stays around 15-30 minutes; a capped item that does not exhaust its universe reports
+    exhaustive=false and the explored fraction.  VERIF_BUDGET_S caps every item (development)."""
+    b = float(item.get('budget_s', 600))
+    if tier == 'thorough':
+        b = min(b, float(os.environ.get('VERIF_THOROUGH_CAP_S', '420')))
+    return min(b, float(os.environ.get('VERIF_BUDGET_S', '1e9')))
+
+
 def main(argv=None):
     ap = argparse.ArgumentParser()
     ap.add_argument('prop')
@@ -179,7 +189,7 @@ def main(argv=None):
     for item in plan:
         cfg = dict(item.get('cfg', {}), property=prop, seed=seed)
         agg = driver.explore(harness_mod, item['fn'], cfg, depth=item.get('depth', 8),
-                             workers=args.workers, budget_s=min(item.get('budget_s', 600), float(os.environ.get('VERIF_BUDGET_S', '1e9'))),
+                             workers=args.workers, budget_s=_budget(item, args.tier),
                              per_path_timeout=item.get('per_path_timeout', 20.0),
                              root_paths=(REPO, HERE))
         agg['name'] = item['name']
